@@ -303,11 +303,12 @@ def mk_aggregate(D1):
         mbar = T.mean(M, axis=0)
         dev = M - T.expand_dims(T.as_tensor(mbar), 0)
         want_var = T.mean(V, axis=0) + T.mean(dev * dev, axis=0)
+        if same_shape(var, (N, D)):
+            E.oblige("canary.aggregate", Sym(zr(var.at(0, 0)) == 0), assume_after=False)
         if shape_is(E, "post.mean_shape", mean, (N, D), "mean"):
             oblige_tensor_eq(E, "post.mean_is_average_of_member_means", mean, mbar)
         if shape_is(E, "post.var_shape", var, (N, D), "var"):
             oblige_tensor_eq(E, "post.var_is_mean_variance_plus_variance_of_means", var, want_var)
-            E.oblige("canary.aggregate", Sym(zr(var.at(0, 0)) == 0), assume_after=False)
     return h
 
 
@@ -327,8 +328,8 @@ def mk_nll(rank):
             return
         E.st.ok("post.scalar")
         want = T.mean(HALF * (Y - mu) * (Y - mu) * T.tfn("exp", -lv)) + HALF * T.mean(lv)
-        E.oblige("post.closed_form", C.compare("==", nll, want))
         E.oblige("canary.nll", C.compare("==", nll, 0), assume_after=False)
+        E.oblige("post.closed_form", C.compare("==", nll, want))
     return h
 
 
@@ -366,8 +367,8 @@ def h_ensemble_loss(E):
     lo = -20 + 20 * T.tfn("sigmoid", en.raw_lo)
     hi = -4 + 9 * T.tfn("sigmoid", en.raw_hi)
     want = nll + Fraction(1, 100) * (T.reduce(hi, "sum") - T.reduce(lo, "sum"))
-    E.oblige("post.nll_of_member_predictions_on_own_rows_plus_boundary_penalty", C.compare("==", loss, want))
     E.oblige("canary.ensemble_loss", C.compare("==", loss, 0), assume_after=False)
+    E.oblige("post.nll_of_member_predictions_on_own_rows_plus_boundary_penalty", C.compare("==", loss, want))
 
 
 # ---------------------------------------------------------------------------
@@ -384,13 +385,13 @@ def h_bootstrap(E):
         E.st.fail("post.index_matrix", f"returned {idx!r}")
         return
     E.st.ok("post.index_matrix")
+    E.oblige("canary.bootstrap", Sym(C.as_int(idx.at(0, 0)) == 0), assume_after=False)
     m = idx.shape[1]
     E.oblige("post.rows_is_n_ensemble", C.compare("==", idx.shape[0], K))
     mz, prod = C.to_z3(m), ts.z * z3.ToReal(n.z)
     E.oblige("post.cols_is_floor_train_size_times_n", Sym(z3.And(z3.ToReal(mz) <= prod, prod < z3.ToReal(mz) + 1)))
     E.oblige("post.cols_at_most_n", Sym(z3.And(mz >= 0, mz <= n.z)))
     E.st.oblige_forall("post.indices_in_range", [INT, INT], lambda e, c: z3.Implies(z3.And(inb(e, K), inb(c, m)), z3.And(C.as_int(idx.at(e, c)) >= 0, C.as_int(idx.at(e, c)) < n.z)), hint="e")
-    E.oblige("canary.bootstrap", Sym(C.as_int(idx.at(0, 0)) == 0), assume_after=False)
 
 
 # ---------------------------------------------------------------------------
@@ -421,10 +422,10 @@ def h_evaluate_plans(E):
         E.st.fail("post.reward_model_sees_horizon_steps_of_every_particle", f"{len(seen)} calls")
     if not shape_is(E, "post.shape_is_n_samples", out, (S,), "expected_returns"):
         return
+    E.oblige("canary.evaluate_plans", Sym(zr(out.at(0)) == 0), assume_after=False)
     R = T.Tensor((S, P, H), lambda s, p, t: Sym(rew(actions.rows(s, t), traj.rows(s, p, t))), REAL)
     want = T.mean(T.reduce(R, "sum", 2), axis=1)
     oblige_tensor_eq(E, "post.particle_mean_of_summed_rewards", out, want)
-    E.oblige("canary.evaluate_plans", Sym(zr(out.at(0)) == 0), assume_after=False)
 
 
 # ---------------------------------------------------------------------------
@@ -459,15 +460,15 @@ def mk_pendulum_closed(batch_rank):
                 E.st.fail("post.shape", f"reward has shape {r.shape}")
                 return
             E.st.ok("post.shape")
+            E.oblige("canary.pendulum", C.compare("==", r, 0), assume_after=False)
             E.oblige("post.closed_form", C.compare("==", r, want()))
             E.oblige("post.non_positive", C.compare("<=", r, 0))
-            E.oblige("canary.pendulum", C.compare("==", r, 0), assume_after=False)
             return
         if not shape_is(E, "post.shape", r, batch, "reward"):
             return
+        E.oblige("canary.pendulum", Sym(zr(r.at(*([0] * batch_rank))) == 0), assume_after=False, using=[])
         forall_eq(E, "post.closed_form", r, want, batch)
         E.st.oblige_forall("post.non_positive", [INT] * batch_rank, lambda *b: z3.Implies(z3.And(*[inb(b[k], batch[k]) for k in range(batch_rank)]), zr(r.at(*b)) <= 0), hint="b", using=[])
-        E.oblige("canary.pendulum", Sym(zr(r.at(*([0] * batch_rank))) == 0), assume_after=False)
     return h
 
 
@@ -487,12 +488,12 @@ def h_pendulum_gym(E):
     r = E.call(RM + "pendulum_reward", act, obs)
     uc = C.smin(C.smax(u, -2), 2)
     gym = -(an * an + Fraction(1, 10) * thdot * thdot + Fraction(1, 1000) * uc * uc)
+    E.oblige("canary.pendulum_gym", C.compare("==", r, 0), assume_after=False)
     E.oblige("post.equals_gymnasium_reward", C.compare("==", r, gym))
     # evenness in theta: the mirrored state (-th: same cos, opposite sin) gets the same reward
     obs_m = T.from_list([cth, -sth, thdot])
     r_m = E.call(RM + "pendulum_reward", act, obs_m)
     E.oblige("post.even_in_theta", C.compare("==", r_m, r))
-    E.oblige("canary.pendulum_gym", C.compare("==", r, 0), assume_after=False)
 
 
 def h_norm_angle(E):
@@ -500,10 +501,10 @@ def h_norm_angle(E):
     E.assume(band(pi > Fraction(31415, 10000), pi < Fraction(31416, 10000)))
     a = E.real("angle")
     r = E.call(RM + "norm_angle", a)
+    E.oblige("canary.norm_angle", r == 0, assume_after=False)
     E.oblige("post.range", band(r >= -pi, r < pi))
     E.oblige("post.identity_on_principal_range", implies(band(a >= -pi, a < pi), r == a))
     E.oblige("post.congruent_mod_2pi", C.compare("==", r, norm_spec(a)))
-    E.oblige("canary.norm_angle", r == 0, assume_after=False)
 
 
 # ---------------------------------------------------------------------------
@@ -523,11 +524,11 @@ def mk_gaussian_mlp(shared_head, hidden, rank):
             return
         E.st.ok("post.returns_mean_and_log_var")
         mean, log_var = out
+        E.oblige("canary.gaussian_mlp", Sym(zr(T.as_tensor(mean).at(*([0] * (len(batch) + 1)))) == 0), assume_after=False)
         shape_is(E, "post.mean_shape", mean, batch + (D,), "mean")
         shape_is(E, "post.log_var_shape", log_var, batch + (D,), "log_var")
         n_lin = len(E.getattr(net, "hidden_layers")) + len(E.getattr(net, "output_layers"))
         E.oblige("post.layer_count", Sym(z3.BoolVal(n_lin == len(hidden) + (1 if shared_head else 2))))
-        E.oblige("canary.gaussian_mlp", Sym(zr(T.as_tensor(mean).at(*([0] * (len(batch) + 1)))) == 0), assume_after=False)
     return h
 
 
@@ -563,6 +564,7 @@ def mk_ts_inf(H, D, A):
         traj = E.call(fn, keys, midx, acts, obs0, en.obj)
         if not shape_is(E, "post.shape", traj, (S, P, H + 1, D), "trajectories"):
             return
+        E.oblige("canary.ts_inf", Sym(zr(traj.at(0, 0, 1, 0)) == zr(obs0.at(0))), assume_after=False, using=[])
         forall_eq(E, "post.starts_at_current_observation", T.index(traj, (slice(None), slice(None), 0)), lambda s, p, d: obs0.at(d), (S, P, D))
         from pyvc.lib.jax_model import split_l
         dists = E.st.ghost.get("tfp_dists", [])
@@ -582,7 +584,6 @@ def mk_ts_inf(H, D, A):
                 return z3.Implies(z3.And(inb(s, S), inb(p, P), inb(d, D)),
                                   zr(traj.at(s, p, t + 1, d)) == zr(traj.at(s, p, t, d)) + zr(sample))
             E.st.oblige_forall(f"post.step{t}_adds_sample_of_own_member", [INT] * 3, step, hint="s", using=["model_idx"])
-        E.oblige("canary.ts_inf", Sym(zr(traj.at(0, 0, 1, 0)) == zr(obs0.at(0))), assume_after=False, using=[])
     return h
 
 
@@ -618,6 +619,7 @@ def h_train_epoch(E):
     iz = lambda k, e, b: C.as_int(idx.at(k, e, b))  # noqa: E731
     E.st.assume_forall([INT] * 3, lambda k, e, b: z3.And(iz(k, e, b) >= 0, iz(k, e, b) < C.to_z3(n)), "indices.range")
     res = E.call(PE + "train_epoch", en.obj, opt, X, Y, idx)
+    E.oblige("canary.train_epoch", C.compare("==", res, 0), assume_after=False, using=[])
     calls = E.st.ghost.get("c17_loss_calls", [])
     scans = E.st.ghost.get("scans", [])
     if len(calls) != 1 or len(scans) != 1:
@@ -648,7 +650,6 @@ def h_train_epoch(E):
     ok = len(ups) == 1 and ups[0]["opt"] is opt and ups[0]["model"] is en.obj and getattr(ups[0]["grads"], "wrt", None) is en.obj \
         and C.to_z3(getattr(ups[0]["grads"], "value", 0)).eq(C.to_z3(calls[0]["value"]))
     (E.st.ok if ok else (lambda nm: E.st.fail(nm, f"{len(ups)} optimizer updates / wrong model or gradient")))("post.one_update_with_gradient_of_that_loss")
-    E.oblige("canary.train_epoch", C.compare("==", res, 0), assume_after=False, using=[])
 
 
 def h_train_epoch_wrong_members(E):
@@ -689,6 +690,7 @@ def epoch_obligations(E, ep):
     E.oblige("epoch.n_batches_is_floor_of_sample_size_over_batch_size", Sym(z3.And(nbz * bz <= mz, mz < (nbz + 1) * bz)), using=[])
     if not shape_is(E, "epoch.index_shape_is_batches_members_batchsize", idx, (NB, en.K, BS), "indices"):
         return
+    E.oblige("canary.epoch", Sym(C.as_int(idx.at(0, 0, 0)) == 0), assume_after=False, using=[])
     pi = perm["pi"]
     col = lambda k, b: b * nbz + k  # noqa: E731  position in the shuffled row: (b, k) -> b * n_batches + k
     rng = lambda k, e, b: z3.And(inb(k, NB), inb(e, en.K), inb(b, BS))  # noqa: E731
@@ -702,7 +704,6 @@ def epoch_obligations(E, ep):
                        lambda k, b, k2, b2: z3.Implies(z3.And(inb(k, NB), inb(b, BS), inb(k2, NB), inb(b2, BS), z3.Or(k != k2, b != b2)),
                                                         pi(col(k, b)) != pi(col(k2, b2))),
                        hint="k", using=["perm"])
-    E.oblige("canary.epoch", Sym(C.as_int(idx.at(0, 0, 0)) == 0), assume_after=False, using=[])
 
 
 def setup_train_ensemble(shared):
